@@ -86,6 +86,8 @@ structure Client where
   /-- scripted auctioneer: refusals of the next `Terms` calls, behaviours of the next commitments -/
   refuse : Nat := 0
   beh : List Beh := []
+  /-- that many of the next stream opens fail although the `Terms` probe before them succeeded -/
+  failOpen : Nat := 0
   /-- left the modelled fragment (see header) -/
   chaos : Bool := false
 deriving DecidableEq, Repr
@@ -101,7 +103,11 @@ def Client.setCur (c : Client) (f : Stream → Stream) : Client :=
 loop has 32767 retries), then the stream is opened and a reader goroutine started.  The waits requested in between
 are `(connect init min max 32767 refuse).waits` (see `C18_backoff_shape`). -/
 def Client.connectStream (c : Client) : Client :=
-  { c with attempts := c.attempts + c.refuse + 1, refuse := 0, streams := {} :: c.streams, isOpen := true }
+  if c.failOpen = 0 then
+    { c with attempts := c.attempts + c.refuse + 1, refuse := 0, streams := {} :: c.streams, isOpen := true }
+  else
+    -- `c.serverStream, err = c.client.SubscribeBatchAuction(ctx)` fails: `serverStream` is nil, the error is returned
+    { c with attempts := c.attempts + c.refuse + 1, refuse := 0, failOpen := c.failOpen - 1, isOpen := false }
 
 /-- `closeStream()`: no-op without a stream; else `CloseSend`, cancel, `serverStream = nil`, close every
 subscription's `quit`/`msgChan`. -/
@@ -117,6 +123,7 @@ inductive HsRes
   | errTransport   -- an error was returned; nothing else happens (the reader goroutine has exited)
   | errShutdown    -- an error was returned *and* the reader goroutine runs `HandleServerShutdown(nil)`
   | errRejected    -- an error was returned; the stream is still up
+  | errConnect     -- `connectServerStream` returned an error (there is no stream)
 deriving DecidableEq, Repr
 
 def addAcct (l : List Nat) (a : Nat) : List Nat := if a ∈ l then l else l ++ [a]
@@ -129,6 +136,8 @@ def Client.connectAndAuth (v : Variant) (inline : Client → Client × HsRes) (c
   if a ∈ c.accts then (c, .ok) else
   -- needToConnect := c.serverStream == nil
   let c := if c.isOpen then c else c.connectStream
+  -- "connecting server stream failed": returned before the map insertion
+  if !c.isOpen then (c, .errConnect) else
   -- c.subscribedAccts[acctPubKey] = sub   (before authenticate, never removed on failure)
   let c := { c with accts := addAcct c.accts a }
   if !c.cur.alive then
@@ -173,6 +182,8 @@ def Client.handleShutdown (v : Variant) (pick : List Nat → List Nat) (hs : Cli
   let c := c.closeStream
   -- connectServerStream(c.cfg.MinBackoff, reconnectRetries)
   let c := c.connectStream
+  -- `if err != nil { return err }`: the map is untouched
+  if !c.isOpen then (c, .errConnect) else
   -- collect the keys in map order and delete them all
   match { c with accts := [] }.resubLoop v hs (pick c.accts) with
   -- a shutdown notice hit a re-subscription: a second HandleServerShutdown now runs concurrently (not modelled)
@@ -226,7 +237,8 @@ inductive Ret
 deriving DecidableEq, Repr
 
 def Client.step (v : Variant) (pick : List Nat → List Nat) (c : Client) (op : Op) : Client × Ret :=
-  let depth := c.beh.length
+  -- every nested reconnect / handler retry consumes a behaviour of the script or a failing open
+  let depth := c.beh.length + c.failOpen
   let hs := hsLevel v pick depth
   let hsd := fun c : Client => c.handleShutdown v pick hs
   match op with
@@ -244,7 +256,7 @@ def Client.step (v : Variant) (pick : List Nat → List Nat) (c : Client) (op : 
     if c.isOpen && c.cur.alive then (c.readerShutdown v hsd depth, .none_) else (c, .none_)
 
 /-- install the auctioneer's script for the next op -/
-def Client.script (c : Client) (refuse : Nat) (beh : List Beh) : Client :=
-  { c with refuse := refuse, beh := beh, mainErrs := [], handlerRes := [] }
+def Client.script (c : Client) (refuse : Nat) (beh : List Beh) (failOpen : Nat := 0) : Client :=
+  { c with refuse := refuse, beh := beh, failOpen := failOpen, mainErrs := [], handlerRes := [] }
 
 end Pool.C18
